@@ -134,6 +134,17 @@ fn transcript<C: S>(g: &str, seed: u64, m: &mut Map<String, Value>) {
             }
         }
     }
+    // caller chosen tags through the trait level verifier: the genuine pair, then the same bytes split differently
+    {
+        let sk = &ks[3].1;
+        let dst: &[u8] = b"BLSFUL-XB-V01_";
+        let sig = <C as BlsSignatureCore>::core_sign(&sk.0, &ms[2], dst).unwrap();
+        m.insert(format!("{}/core-verify-custom-tag/genuine", g), json!(<C as BlsSignatureCore>::core_verify(sk.public_key().0, sig, &ms[2], dst).is_ok()));
+        let mut shifted = ms[2].clone();
+        shifted.extend_from_slice(&dst[..3]);
+        m.insert(format!("{}/core-verify-custom-tag/boundary-shifted-after-genuine", g), json!(<C as BlsSignatureCore>::core_verify(sk.public_key().0, sig, &shifted, &dst[3..]).is_ok()));
+        m.insert(format!("{}/core-verify-custom-tag/genuine-again", g), json!(<C as BlsSignatureCore>::core_verify(sk.public_key().0, sig, &ms[2], dst).is_ok()));
+    }
     // larger aggregates and multi-signatures (many pairing terms): verdicts must agree across backends
     for n in [15usize, 16, 17, 33] {
         let sks: Vec<SecretKey<C>> = (0..n).map(|i| SecretKey::<C>::from_hash(format!("xb-agg-{}", i))).collect();
